@@ -67,38 +67,9 @@ theorem name_label_bound (l : Bytes) (ls : List Bytes) (h : LabelsOk (l :: ls)) 
     (encName (l :: ls)).head? = some (UInt8.ofNat l.length) ∧ l.length ≤ 63 := by
   have hl := h l (by simp)
   rw [encName_eq _ h]
-  exact ⟨by simp [encLabels], hl.2⟩
+  exact ⟨by simp [encLabels], hl.2.1⟩
 
 /-! ## messages -/
-
-private theorem flatMap_congr' {α : Type} {l : List α} {f g : α → Bytes} (h : ∀ x ∈ l, f x = g x) :
-    l.flatMap f = l.flatMap g := by
-  induction l with
-  | nil => rfl
-  | cons x xs ih => simp [h x (by simp), ih (fun y hy => h y (by simp [hy]))]
-
-private theorem packQuestion_eq_ref (q : Question) (h : QuestionOk q) : packQuestion q = Ref.question q := by
-  simp [packQuestion, Ref.question, refName_eq _ h.1, refBe2 _ h.2.1, refBe2 _ h.2.2]
-
-private theorem packRaw_eq_ref (r : Resource) (h : ResourceOk r) :
-    packRaw ⟨r.name, r.qtype, r.qclass, r.ttl, Ref.rdata r.rd⟩ = Ref.rr r := by
-  obtain ⟨hn, ht, hc, httl, hlen, hlt, _⟩ := h
-  simp [packRaw, Ref.rr, refName_eq _ hn, refBe2 _ ht, refBe2 _ hc, refBe4 _ httl, ← hlen, refBe2 _ hlt]
-
-private theorem packAnswer_eq_ref (r : Resource) (h : AnswerOk r) :
-    packAnswer ⟨r.name, r.qtype, r.qclass, r.ttl, r.rd.nameOf⟩ = Ref.rr r := by
-  obtain ⟨⟨hn, ht, hc, httl, hlen, hlt, hrd⟩, h12⟩ := h
-  cases hr : r.rd with
-  | name ls =>
-    rw [hr] at hrd hlen
-    have hl : LabelsOk ls := hrd.2
-    simp only [Ref.rdata, refName_eq ls hl] at hlen
-    simp [packAnswer, Ref.rr, hr, RData.nameOf, Ref.rdata, refName_eq _ hn, refName_eq _ hl, refBe2 _ ht,
-      refBe2 _ hc, refBe4 _ httl, ← hlen, refBe2 _ hlt]
-  | a ip => rw [hr] at hrd; exact absurd hrd.1 (by omega)
-  | srv p w port t => rw [hr] at hrd; exact absurd hrd.1 (by omega)
-  | txt kvs => rw [hr] at hrd; exact absurd hrd.1 (by omega)
-  | raw bs => rw [hr] at hrd; exact absurd hrd.2.1 (by omega)
 
 /-- **DNS message, bytes = documented layout.**  For every message of the domain, what
     `DnsMessage.pack` produces is the RFC 1035 layout written independently in `Ref`. -/
